@@ -219,10 +219,7 @@ func Tanh(x float64) float64 {
 }
 
 func Trunc(x float64) float64 {
-	if x == posInf || x == negInf || x != x || 1/x == negInf {
-		return x
-	}
-	return Copysign(float64(int(x)), x)
+	return math.Call("trunc", x).Float()
 }
 
 var buf struct {
